@@ -217,6 +217,19 @@ def main():
     rec_names = set(records)
     cfg_fns = [f['name'] for f in fns if f['kind'] == 'Pure' and f['params'] and f['params'][0][1] in rec_names]
     L.append('Ltac unfold_cfg_fns := cbv beta iota delta [%s].' % ' '.join(cfg_fns))
+    # every definition of GenPure.v (register constants and pure functions): unfolding them exposes the bit tests
+    import re as _re
+    pure_v = open(os.path.join(os.path.dirname(sys.argv[1]), 'GenPure.v')).read()
+    pure_names = _re.findall(r'^Definition (\w+)', pure_v, _re.M)
+    meta_v = open(os.path.join(os.path.dirname(sys.argv[1]), 'GenMeta.v')).read()
+    rec_list = _re.search(r'Ltac cbv_records := cbv beta iota delta \[([^\]]*)\]', meta_v).group(1).split()
+    for leaf in meta['leaves']:
+        if 'get_' + leaf['label'] not in rec_list:
+            rec_list.append('get_' + leaf['label'])
+    L.append('(* the symbolic content of the shadowed register at address a in an explicit record d (nothing but projections is reduced) *)')
+    L.append('Ltac field_at a d k := lens_of a ltac:(fun get put eta => let t := eval cbv beta iota delta [%s] in (get d) in k t).' % ' '.join(rec_list))
+    L.append('Ltac unfold_pure_fns := cbv beta iota delta [%s].' % ' '.join(pure_names))
+    L.append('Ltac unfold_pure_fns_in H := cbv beta iota delta [%s] in H.' % ' '.join(pure_names))
     txt = '\n'.join(L) + '\n'
     lens_path = os.path.join(os.path.dirname(sys.argv[3]), 'GenLens.v')
     if _changed(lens_path, txt):
